@@ -73,6 +73,8 @@ def build(env, spec):
     W.spec = spec
     W.env = env
     W.tasks = {}
+    W.initial_prob = {}
+    W.resolved_at_submission = {}
     W.task_params = {}
     W.graph_of = {}
     rt_lo = spec.get("rt_lo", 1)
@@ -122,6 +124,26 @@ def build(env, spec):
                                     "conditional": tname in cond, "terminal": tname in g.get("terminal", []),
                                     "prob": probs.get(tname, 1.0), "source": is_src}
         children = {t: [b for a, b in g["edges"] if a == t] for t in g["tasks"]}
+        if g.get("via_jobgraph"):
+            # instantiate through the real JobGraph._generate_task_graph (resolution of conditionals at submission)
+            import types
+
+            fl = types.SimpleNamespace(min_deadline_variance=0, max_deadline_variance=0, min_deadline=0, max_deadline=sys.maxsize,
+                                       use_branch_predicated_deadlines=False, resolve_conditionals_at_submission=True,
+                                       decompose_deadlines=False, log_dir=None, log_file_name=None, log_level="debug")
+            fl.__dict__.update(g.get("flags", {}))
+            jg = JobGraph(name="J" + gname, jobs={jobs[t]: [jobs[c] for c in children[t]] for t in g["tasks"]})
+            tg = jg._generate_task_graph(release_time=ET(rel), task_graph_name=gname, timestamp=0, _flags=fl)
+            for t in tg.get_nodes():
+                W.tasks[t.name] = t
+                W.initial_prob[t.name] = t.probability
+                W.task_params[t.name]["deadline"] = t.deadline.time
+            for cname in cond:
+                best = [c for c in cond[cname] if W.initial_prob[c] >= 1.0 - 1e-9]
+                if fl.resolve_conditionals_at_submission:
+                    W.resolved_at_submission[cname] = best[0] if len(best) == 1 else None
+            tgs[gname] = tg
+            continue
         jg = JobGraph(name="J" + gname)
         tgs[gname] = TaskGraph(name=gname, tasks={tmap[t]: [tmap[c] for c in children[t]] for t in g["tasks"]}, job_graph=jg)
     W.task_graphs = tgs
@@ -162,6 +184,12 @@ def build(env, spec):
         sch = HavocScheduler(W, spec.get("havoc", {}), runtime=ET(srt))
     else:
         raise ValueError(pol)
+    if pol != "HAVOC":
+        # BaseScheduler's default prediction policy is RANDOM: every frontier query then draws from the global
+        # generator for each unresolved conditional (a fork per draw). Worlds use ALL unless they ask otherwise.
+        from workload import BranchPredictionPolicy
+
+        sch._policy = getattr(BranchPredictionPolicy, spec.get("branch_policy", "ALL"))
     W.scheduler = sch
     freq = val(env, spec.get("freq", -1), "freq", 0, T)
     timeout = val(env, spec.get("timeout", 2 ** 50), "timeout", 0, 4 * T)
@@ -594,6 +622,8 @@ def end_oracles(W, mon):
     # ---- C06 closure
     if "C06" in mon.on:
         c06_end(W, mon)
+    if "C07" in mon.on:
+        c07_end(W, mon)
 
 
 def c06_end(W, mon):
@@ -638,3 +668,63 @@ def c06_end(W, mon):
         allc = all(t.state == TaskState.COMPLETED for t in sinks)
         rows = [r for r in W.csv.rows if r.split(",")[1:3] == ["TASK_GRAPH_FINISHED", gname]]
         mon.req("C06", "graph-finished-iff-sinks-complete", (len(rows) == 1) == allc if allc else len(rows) == 0, gname)
+
+
+def c07_end(W, mon):
+    """Conditionals: exactly one child released (non-zero probability); every task on an untaken branch, up to
+    but excluding the matching join, is CANCELLED and never started; in work-conserving worlds every other
+    task (the joins and everything after them included) completes exactly once."""
+    spec = W.spec
+
+    def branch_of(u):
+        """tasks on the branch rooted at child u up to (excluding) the join that matches u's conditional."""
+        out, st = [], [(u, 0)]
+        seen = set()
+        while st:
+            x, depth = st.pop()
+            p = W.task_params[x]
+            if p["terminal"]:
+                if depth == 0:
+                    continue  # the matching join
+                depth -= 1
+            if (x, depth) in seen:
+                continue
+            seen.add((x, depth))
+            if x not in out:
+                out.append(x)
+            nd = depth + 1 if p["conditional"] else depth
+            for ch in p["children"]:
+                st.append((ch, nd))
+        return out
+
+    untaken = set()
+    for cname, tp in W.task_params.items():
+        if not tp["conditional"]:
+            continue
+        c = W.tasks[cname]
+        if c.state != TaskState.COMPLETED:
+            continue
+        kids = tp["children"]
+        released = [k for k in kids if mon.release_calls[k]]
+        mon.req("C07", "exactly-one-child-released", len(released) == 1, f"{cname}: released {released}")
+        for k in released:
+            p0 = W.initial_prob.get(k, W.task_params[k]["prob"])
+            mon.req("C07", "released-child-has-nonzero-probability", p0 > 0, f"{k} p={p0}")
+            if W.resolved_at_submission:
+                mon.req("C07", "branch-is-the-one-resolved-at-submission", W.resolved_at_submission.get(cname) == k,
+                        f"{cname}: ran {k}, resolved {W.resolved_at_submission.get(cname)}")
+        for u in kids:
+            if u in released:
+                continue
+            for x in branch_of(u):
+                untaken.add(x)
+                t = W.tasks[x]
+                if mon.ended:
+                    mon.req("C07", "untaken-branch-cancelled", t.state == TaskState.CANCELLED, f"{x} is {t.state.name} (conditional {cname}, taken {released})")
+                mon.req("C07", "untaken-branch-never-started", len(mon.starts[x]) == 0, x)
+    if spec.get("work_conserving") and mon.ended:
+        for x, t in W.tasks.items():
+            if x in untaken:
+                continue
+            mon.req("C07", "join-and-successors-complete-once", t.state == TaskState.COMPLETED and len(mon.starts[x]) == 1 and len(mon.finishes[x]) == 1,
+                    f"{x} is {t.state.name} starts={len(mon.starts[x])} (untaken: {sorted(untaken)})")
